@@ -87,6 +87,14 @@ class S:
             r = z3.Function('SQRT', z3.RealSort(), z3.RealSort())(z3.simplify(x.t))
             SQRT_FACTS.append((x.t, r))
             return S(r, x.deps)
+        if kw.get('out') is not None:
+            # ufunc(..., out=<an input column>) mutates data that other loaders read: not a pure function of its inputs
+            deps = set()
+            for x in inputs:
+                if isinstance(x, S):
+                    deps |= set(x.deps)
+            MUTATIONS.append(sorted(deps))
+            raise TypeError('loader writes into one of its input columns (out=)')
         if ufunc in (np.multiply, np.add, np.subtract, np.true_divide) and method == '__call__':
             a, b = S.lift(inputs[0]), inputs[1]
             return {np.multiply: a * b, np.add: a + b, np.subtract: a - b, np.true_divide: a / b}[ufunc]
@@ -290,9 +298,19 @@ def judge_catalog(seed, box, velz, cleaned, int_box=False):
             with warnings.catch_warnings():
                 warnings.simplefilter('ignore')
                 cats[conv] = chc.CompaSOHaloCatalog(T.groupdir, fields='all', cleaned=cleaned, convert_units=conv, subsamples=False)
-        for conv in (True, False):
+        # the same columns requested in the opposite and in a shuffled order (fields are loaded in reverse request order, so a loader
+        # that disturbs a shared raw column only shows for some orders); keyed 'rev' / 'shuf', converted units
+        allnames = list(cats[True].halos.colnames)
+        rng = np.random.default_rng(seed)
+        for key, order in (('rev', allnames[::-1]), ('shuf', list(rng.permutation(allnames)))):
+            with warnings.catch_warnings():
+                warnings.simplefilter('ignore')
+                cats[key] = chc.CompaSOHaloCatalog(T.groupdir, fields=list(order), cleaned=cleaned, convert_units=True, subsamples=False)
+        for conv in (True, False, 'rev', 'shuf'):
             b, v = (float(box), float(velz)) if conv else (1.0, 1.0)
-            for name in cats[conv].halos.colnames:
+            for name in allnames:
+                if name not in cats[conv].halos.colnames:
+                    return f'column {name} missing when the fields are requested in order {conv!r}'
                 if cleaned and name == 'N':
                     want = np.asarray(raw['N_total'], dtype=np.float64)      # cleaned catalogues expose the cleaned count as N
                 else:
@@ -325,7 +343,18 @@ def judge_catalog(seed, box, velz, cleaned, int_box=False):
 
 
 def _bworker(t):
-    return judge_catalog(*t)
+    """one catalogue, then - in the same process - a second one with other unit constants (anything that remembers the first
+    catalogue's BoxSize / VelZSpace_to_kms shows up in the second)"""
+    try:
+        why = judge_catalog(*t)
+        if why:
+            return why
+        seed, box, velz, cleaned, ib = t
+        why = judge_catalog(seed + 1000, box * 4 if not ib else box * 4, velz * 0.75, cleaned, ib)
+        return ('second catalogue loaded in the same process: ' + why) if why else None
+    except Exception as ex:      # noqa
+        import traceback
+        return f'catalogue load raised {ex!r} ({traceback.format_exc().strip().splitlines()[-3].strip()})'
 
 
 def lemma_replayer(obl, model):
@@ -367,7 +396,7 @@ def check(run):
         if why:
             run.bounded_violation('catalogue column not in the documented units', dict(BoxSize=t[1], VelZSpace_to_kms=t[2], cleaned=t[3], integer_BoxSize=t[4]), why)
             break
-    run.add_bounded('real catalogue loads (convert_units on/off) vs raw arrays and the documented factors', len(tasks) * 2, len(tasks),
+    run.add_bounded('real catalogue loads (convert_units on/off, fields in data-model / reversed / shuffled order, two catalogues with different units per process) vs raw arrays and the documented factors', len(tasks) * 8, len(tasks) * 2,
                     '4 (BoxSize, VelZSpace_to_kms) pairs in no round ratio (one with an integer-typed BoxSize) x cleaned on/off x all user/cleaned columns; int16 ratios over their full range',
                     [dict(BoxSize=37.5, VelZSpace_to_kms=2917.0)])
     run.assumptions += ['floats are reals in the symbolic execution of the loaders (int16 * factor wrap-around, float32 rounding only in the bounded check)',
